@@ -204,8 +204,15 @@ def execute_concurrent_async(
 
     # Execute concurrently
     try:
-        executor.execute(concurrency=concurrency, fail_fast=raise_on_first_error)
+        results = executor.execute(concurrency=concurrency, fail_fast=raise_on_first_error)
     except Exception as e:
-        future.set_exception(e)
+        with executor._condition:
+            if not future.done():
+                future.set_exception(e)
+    else:
+        with executor._condition:
+            if not future.done() and not executor._exec_count:
+                # nothing was started (no statements): nobody else will complete the future
+                future.set_result(results)
 
     return future
